@@ -95,6 +95,30 @@ let show_res (r : expr res) : string =
 
 let nonempty s = String.trim s <> ""
 
+(* hypothesis of C39_atoms_complete_partial, evaluated for the evidence (not part of the
+   compared text): no two different trees of the get_args closure are identified by the library's
+   equality.  '?' when the closure is too large to test all pairs. *)
+let closure_exact_flag (e : expr) : string =
+  let nodes = ref [] in
+  let count = ref 0 in
+  let rec go x =
+    if !count <= 400 then begin
+      incr count;
+      nodes := x :: !nodes;
+      List.iter go (get_args x)
+    end in
+  go e;
+  if !count > 400 then "?" else begin
+    let tbl = Hashtbl.create 64 in
+    List.iter (fun x -> let s = show false x in if not (Hashtbl.mem tbl s) then Hashtbl.add tbl s x) !nodes;
+    let distinct = Hashtbl.fold (fun s x acc -> (s, x, mk_hx x) :: acc) tbl [] in
+    let ok = ref true in
+    List.iter (fun (s1, x1, h1) ->
+      List.iter (fun (s2, x2, h2) ->
+        if s1 <> s2 && fst h1 = fst h2 && (expr_eqb x1 x2 || set_equiv h1 h2) then ok := false) distinct) distinct;
+    if !ok then "1" else "0"
+  end
+
 let () =
   try
     while true do
@@ -121,7 +145,7 @@ let () =
             Buffer.add_string buf (" A:" ^ nm ^ "[" ^ show_state (atoms_st ks e) ^ "]")) (Lazy.force menu);
         Buffer.add_string buf (" CO[" ^ String.concat " ; " (List.map (fun (x, n) -> show_res (coeff e x n)) cqs) ^ "]");
         Buffer.add_string buf ("\t#G:" ^ (if guard_set_binder e then "1" else "0") ^ (if guard_subs e then "1" else "0")
-                               ^ (if tree_ok e then "1" else "0"));
+                               ^ (if tree_ok e then "1" else "0") ^ closure_exact_flag e);
         print_endline (Buffer.contents buf)
       with
       | Unsupported m -> print_endline ("UNSUPPORTED " ^ m)
